@@ -1,4 +1,5 @@
 import Model.TextFields
+import Model.Dnssec
 import Generated.C05
 /-!
 Per-type text codecs (`to_styled_text` / `from_text`) of the record types that are built from the regular
@@ -34,6 +35,8 @@ inductive FV where
   | nm (v : Name)
   | b (v : Bytes)
   | bl (v : List Bytes)
+  | wl (v : List (Nat × Bytes))   -- type-bitmap windows
+  | nl (v : List Name)
   deriving DecidableEq, Repr
 
 /-- prefix field kinds -/
@@ -59,6 +62,11 @@ inductive FK where
   | keyFlags               -- KEY: `as_uint16` of the raw token, else `|`-separated LegacyFlag mnemonics; printed as a number
   | keyProto               -- KEY: `as_uint8` of the raw token, else a Protocol mnemonic; printed as a number
   | sigtime                -- RRSIG/SIG: `YYYYMMDDHHMMSS` or seconds
+  | b32hex                 -- NSEC3 next hashed owner: base32hex without padding
+  | hexOne                 -- HIP hit: `unhexlify(tok.get_string())`, one token
+  | b64One                 -- HIP key, TKEY key, TSIG mac: `b64decode(tok.get_string())`, one token, printed without chunking
+  | nameRaw                -- TKEY/TSIG algorithm: `tok.get_name(relativize=False)` (no origin); printed with the style
+  | rcode                  -- TSIG error: `dns.rcode.from_text(get_string)`, printed `dns.rcode.to_text(error, True)`
   deriving DecidableEq, Repr
 
 /-- tail kinds -/
@@ -67,6 +75,10 @@ inductive TK where
   | hex                    -- `concatenate_remaining_identifiers()` → `unhexlify`, styled chunking
   | b64 (fixed0 : Bool)    -- … → `b64decode`; `fixed0`: the type forces chunk size 0
   | keyB64                 -- KEY: base64 unless the flags say NOKEY (then nothing may follow)
+  | bitmap                 -- NSEC/NSEC3/CSYNC: the remaining tokens are type mnemonics (`util.Bitmap`)
+  | names                  -- HIP rendezvous servers: the remaining tokens are names
+  | b64Opt                 -- TKEY other data: `concatenate_remaining_identifiers(True)`, printed only when non-empty
+  | tsigOther              -- TSIG other data: one base64 token iff the other-length field is non-zero
   | txt                    -- TXT-like: one or more character-strings through `unescape_to_bytes`
   | optCstr                -- ISDN subaddress: at most one more string
   deriving DecidableEq, Repr
@@ -123,6 +135,13 @@ def printField (st : Style) : FK → FV → Option Text
   | .keyFlags, .n v => some (natToDec v)
   | .keyProto, .n v => some (natToDec v)
   | .sigtime, .n v => some (sigtimeToText v)
+  | .b32hex, .b s => some (b32hexEncode s)
+  | .hexOne, .b s => some (hexlify s)
+  | .b64One, .b s => some (b64Encode s)
+  | .nameRaw, .nm n => match nameToStyled n st.origin st.relativize with
+    | .ok t => some t
+    | .error _ => none
+  | .rcode, .n v => some (enumToText ConstsC05.rcodeTsigTexts [] v)
   | _, _ => none
 
 def printFields (st : Style) : List FK → List FV → Option (List Text)
@@ -133,20 +152,49 @@ def printFields (st : Style) : List FK → List FV → Option (List Text)
   | _, _ => none
 
 /-- text items contributed by the tail (joined to the fields by single spaces) -/
+def printNames (st : Style) : List Name → Option (List Text)
+  | [] => some []
+  | n :: ns => match nameToStyled n st.origin st.relativize, printNames st ns with
+    | .ok t, some r => some (t :: r)
+    | _, _ => none
+
 def printTail (st : Style) : TK → Option FV → Option (List Text)
   | .none, none => some []
   | .hex, some (.b d) => some [wordbreak (hexlify d) st.hexChunk st.hexSep]
   | .b64 fixed0, some (.b d) => some [wordbreak (b64Encode d) (if fixed0 then 0 else st.b64Chunk) st.b64Sep]
   | .keyB64, some (.b d) => some [wordbreak (b64Encode d) st.b64Chunk st.b64Sep]
+  | .b64Opt, some (.b d) => some (if d = [] then [] else [b64Encode d])
+  | .tsigOther, some (.b d) => some (if d = [] then [] else [b64Encode d])
   | .txt, some (.bl ss) =>
     some [joinSep [32] (ss.map fun s => quote (txtElement st.txtUtf8 ConstsC05.unicodeEscaped Consts.rdataEscaped s))]
   | .optCstr, some (.b s) => some (if s = [] then [] else [quote (escapifyR s)])
+  | .names, some (.nl ns) => printNames st ns
   | _, _ => none
 
+/-- the types of one window in ascending order: `for i, byte in enumerate(bitmap): for j in range(8): if byte & (0x80 >> j)` -/
+def windowTypesFrom (w : Nat) : Nat → Bytes → List Nat
+  | _, [] => []
+  | i, byte :: rest =>
+    ((List.range 8).filter fun j => byte.testBit (7 - j)).map (fun j => w * 256 + i * 8 + j) ++ windowTypesFrom w (i + 1) rest
+
+def windowTypes (w : Nat × Bytes) : List Nat := windowTypesFrom w.1 0 w.2
+
+/-- `Bitmap.to_text()`: `" " + " ".join(bits)` per window -/
+def bitmapText (ws : List (Nat × Bytes)) : List Nat :=
+  ws.flatMap fun w => 32 :: joinSep [32] ((windowTypes w).map rdtypeToText)
+
 def printRec (sch : Schema) (st : Style) (vals : List FV) (tail : Option FV) : Option Text :=
-  match printFields st sch.fields vals, printTail st sch.tail tail with
-  | some fs, some ts => some (joinSep [32] (fs ++ ts))
-  | _, _ => none
+  match sch.tail, tail with
+  | .bitmap, some (.wl ws) =>
+    -- `f"{fields}{text}"`: the bitmap text carries its own leading blanks
+    if ws.all (fun w => (windowTypes w).all fun t => decide (t ≤ 65535)) then
+      (printFields st sch.fields vals).map fun fs => joinSep [32] fs ++ bitmapText ws
+    else none
+  | .bitmap, _ => none
+  | _, _ =>
+    match printFields st sch.fields vals, printTail st sch.tail tail with
+    | some fs, some ts => some (joinSep [32] (fs ++ ts))
+    | _, _ => none
 
 /-! ## parsing -/
 
@@ -288,6 +336,24 @@ def parseFieldExtra : FK → Tok → Option FV
   | .sigtime, t => match unescapeCP t.val with
     | some v => (sigtimeFromText v).map .n
     | none => none
+  | .hexOne, t => match unescapeCP t.val with
+    | some v => match unhexlify v with
+      | some b => if b.length > 255 then none else some (.b b)
+      | none => none
+    | none => none
+  | .b64One, t => match unescapeCP t.val with
+    | some v => (b64Decode v).map .b
+    | none => none
+  | .rcode, t => match unescapeCP t.val with
+    | some v => (enumFromText ConstsC05.rcodeNames [] 4095 v).map .n
+    | none => none
+  | .b32hex, t => match unescapeCP t.val with
+    | some v =>
+      if v.any (fun c => decide (c ≥ 128)) then none     -- `.encode("ascii")`
+      else match b32hexDecode v with
+        | some b => if b.length > 255 then none else some (.b b)
+        | none => none
+    | none => none
   | _, _ => none
 
 def parseField (env : PEnv) : FK → Tok → Option FV
@@ -295,6 +361,7 @@ def parseField (env : PEnv) : FK → Tok → Option FV
   | .oct16, t => (asUint 8 65535 t).map .n
   | .ttl, t => (asTtl t).map .n
   | .name, t => (asName t env.origin env.relativize env.relTo).map .nm
+  | .nameRaw, t => (asName t none false none).map .nm
   | .cstr maxTok maxBytes _, t => match asStringBytes maxTok t with
     | some v => (bytesMax maxBytes v).map .b
     | none => none
@@ -335,6 +402,31 @@ def keyIsNoKey : List FV → Bool
 
 def parseTail (vals : List FV) : TK → List Tok → Option (Option FV)
   | .none, toks => if toks = [] then some none else none
+  | .bitmap, toks =>
+    let rec types : List Tok → Option (List Nat)
+      | [] => some []
+      | t :: ts => match unescapeCP t.val with
+        | some v => match rdtypeFromText v, types ts with
+          | some ty, some r => if ty = 0 then none else some (ty :: r)
+          | _, _ => none
+        | none => none
+    (types toks).map fun tys => some (.wl (Dnssec.fromRdtypes tys))
+  | .b64Opt, toks => match concatIdents true toks with
+    | some s => (b64Decode s).map fun b => some (.b b)
+    | none => none
+  | .tsigOther, toks =>
+    -- vals = [alg, time, fudge, maclen, mac, original id, error, otherlen]
+    match (vals[7]? : Option FV), toks with
+    | some (FV.n len), [] => if len = 0 then some (some (.b [])) else none
+    | some (FV.n len), [t] =>
+      if len = 0 then none
+      else match unescapeCP t.val with
+        | some v => match b64Decode v with
+          | some b => if b.length = len then some (some (.b b)) else none
+          | none => none
+        | none => none
+    | _, _ => none
+  | .names, _ => none   -- handled by `parseRec` (needs the origin)
   | .keyB64, toks =>
     if keyIsNoKey vals then (if toks = [] then some (some (.b [])) else none)
     else match concatIdents false toks with
@@ -356,10 +448,17 @@ def parseTail (vals : List FV) : TK → List Tok → Option (Option FV)
       | none => none
     | _ => none
 
+def parseNames (env : PEnv) : List Tok → Option (List Name)
+  | [] => some []
+  | t :: ts => match asName t env.origin env.relativize env.relTo, parseNames env ts with
+    | some n, some r => some (n :: r)
+    | _, _ => none
+
 def parseRec (sch : Schema) (env : PEnv) (toks : List Tok) : Option (List FV × Option FV) :=
   match parseFields env sch.fields toks with
   | none => none
-  | some (vals, rest) => match parseTail vals sch.tail rest with
+  | some (vals, rest) =>
+    match (if sch.tail = .names then (parseNames env rest).map (fun ns => some (.nl ns)) else parseTail vals sch.tail rest) with
     | none => none
     | some tail => if sch.check vals tail then some (vals, tail) else none
 
@@ -391,6 +490,11 @@ def caaCheck : List FV → Option FV → Bool
 /-- URI: the target must not be empty -/
 def uriCheck : List FV → Option FV → Bool
   | [_, _, .b target], none => !target.isEmpty
+  | _, _ => false
+
+/-- TSIG: the printed lengths are those of the MAC and of the other data -/
+def tsigCheck : List FV → Option FV → Bool
+  | [_, _, _, .n maclen, .b mac, _, _, .n otherlen], some (.b other) => mac.length == maclen && other.length == otherlen
   | _, _ => false
 
 def u8 := FK.uint 255
@@ -432,6 +536,12 @@ def schemaOf : String → Option Schema
   | "CERT" => some ⟨[.ctype, u16, .algoName], .b64 false, noCheck, true⟩
   | "DSYNC" => some ⟨[.rdtype, .scheme, u16, .name], .none, noCheck, true⟩
   | "KEY" => some ⟨[.keyFlags, .keyProto, .algo], .keyB64, noCheck, true⟩
+  | "HIP" => some ⟨[u8, .hexOne, .b64One], .names, noCheck, false⟩
+  | "TKEY" => some ⟨[.nameRaw, u32, u32, u16, u16, .b64One], .b64Opt, noCheck, false⟩
+  | "TSIG" => some ⟨[.nameRaw, .uint 281474976710655, u16, u16, .b64One, u16, .rcode, u16], .tsigOther, tsigCheck, false⟩
+  | "NSEC" => some ⟨[.name], .bitmap, noCheck, true⟩
+  | "CSYNC" => some ⟨[u32, u16], .bitmap, noCheck, true⟩
+  | "NSEC3" => some ⟨[u8, u8, u16, .salt, .b32hex], .bitmap, noCheck, true⟩
   | "RRSIG" | "SIG" => some ⟨[.rdtype, .algo, u8, .ttl, .sigtime, .sigtime, u16, .name], .b64 false, noCheck, true⟩
   | _ => none
 
@@ -439,7 +549,7 @@ def modelledTypes : List String :=
   ["A", "AAAA", "NS", "CNAME", "PTR", "DNAME", "NSAP-PTR", "MX", "AFSDB", "RT", "KX", "LP", "PX", "SRV", "RP", "SOA",
    "TXT", "SPF", "AVC", "NINFO", "RESINFO", "WALLET", "HINFO", "X25", "ISDN", "NAPTR", "CAA", "URI", "DS", "DLV", "CDS",
    "TLSA", "SMIMEA", "SSHFP", "ZONEMD", "DNSKEY", "CDNSKEY", "DHCID", "OPENPGPKEY", "BRID", "HHIT", "L32", "NSEC3PARAM",
-   "CH-A", "EUI48", "EUI64", "NID", "L64", "NSAP", "CERT", "DSYNC", "KEY", "RRSIG", "SIG"]
+   "CH-A", "EUI48", "EUI64", "NID", "L64", "NSAP", "CERT", "DSYNC", "KEY", "RRSIG", "SIG", "NSEC", "CSYNC", "NSEC3", "HIP", "TKEY", "TSIG"]
 
 /-! ## wire form of the schema fields (needed by the generic syntax of known types) -/
 
@@ -479,6 +589,7 @@ def encField (origin : Option Name) : FK → FV → Option Bytes
   | .keyFlags, .n v => some (beBytes 2 v)
   | .keyProto, .n v => some [v]
   | .sigtime, .n v => some (beBytes 4 v)
+  | .b32hex, .b s => some (s.length :: s)
   | _, _ => none
 
 /-- CAA's value and URI's target are not length-prefixed: they are the rest of the rdata -/
@@ -502,6 +613,7 @@ def encTail : TK → Option FV → Option Bytes
   | .hex, some (.b d) => some d
   | .b64 _, some (.b d) => some d
   | .keyB64, some (.b d) => some d
+  | .bitmap, some (.wl ws) => some (ws.flatMap fun w => w.1 :: w.2.length :: w.2)
   | .txt, some (.bl ss) => some (ss.flatMap fun s => s.length :: s)
   | .optCstr, some (.b s) => some (if s = [] then [] else s.length :: s)
   | _, _ => none
@@ -556,6 +668,10 @@ def decFields (tname : String) (w : Bytes) (origin : Option Name) : Nat → Nat 
       | .rdtype | .ctype | .keyFlags => if cur + 2 ≤ w.length then some (.n (beVal ((w.drop cur).take 2)), cur + 2) else none
       | .algoName | .scheme | .keyProto => if cur + 1 ≤ w.length then some (.n (beVal ((w.drop cur).take 1)), cur + 1) else none
       | .sigtime => if cur + 4 ≤ w.length then some (.n (beVal ((w.drop cur).take 4)), cur + 4) else none
+      | .b32hex => match w[cur]? with
+          | some l => if cur + 1 + l ≤ w.length then some (.b ((w.drop (cur + 1)).take l), cur + 1 + l) else none
+          | none => none
+      | .hexOne | .b64One | .nameRaw | .rcode => none   -- types with `wire := false`
     match one with
     | none => none
     | some (v, cur') => match decFields tname w origin (i + 1) cur' ks with
@@ -571,11 +687,26 @@ def decCstrs (w : Bytes) : Nat → Nat → Option (List Bytes)
         if cur + 1 + l ≤ w.length then (decCstrs w fuel (cur + 1 + l)).map (((w.drop (cur + 1)).take l) :: ·) else none
       | none => none
 
+/-- `Bitmap.from_wire_parser` + the constructor's validation (ascending windows, 1–32 octets each) -/
+def decWindows (w : Bytes) : Nat → Nat → Option Nat → Option (List (Nat × Bytes))
+  | 0, _, _ => none
+  | fuel + 1, cur, last =>
+    if cur ≥ w.length then some []
+    else match w[cur]?, w[cur + 1]? with
+      | some win, some l =>
+        if cur + 2 + l > w.length then none
+        else if (match last with | some p => decide (win ≤ p) | none => false) then none
+        else if l = 0 ∨ l > 32 then none
+        else (decWindows w fuel (cur + 2 + l) (some win)).map (((win, (w.drop (cur + 2)).take l)) :: ·)
+      | _, _ => none
+
 def decTail (w : Bytes) (cur : Nat) : TK → Option (Option FV)
   | .none => if cur = w.length then some none else none
   | .hex => some (some (.b (w.drop cur)))
   | .b64 _ => some (some (.b (w.drop cur)))
   | .keyB64 => some (some (.b (w.drop cur)))
+  | .bitmap => (decWindows w (w.length + 1) cur none).map fun ws => some (.wl ws)
+  | .names | .b64Opt | .tsigOther => none
   | .txt => match decCstrs w (w.length + 1) cur with
     | some ss => if ss = [] then none else some (some (.bl ss))
     | none => none
@@ -644,7 +775,8 @@ def fromTextRdata (tname : Option String) (env : PEnv) (text : Text) : Option Pa
       | none => none
       | some sch =>
         if isGenericStart toks then
-          match parseGeneric toks with
+          if !sch.wire then none   -- no wire codec in the model for this type: the generic form is oracle-only
+          else match parseGeneric toks with
           | none => none
           | some data =>
             -- `fix:` commit 7f93d2c: names are relativized as the textual form would be, and the re-encode
